@@ -294,6 +294,10 @@ func c13r3(c *an.Ctx) {
 			case "counted", "shrinking", "len-bounded", "range", "wait":
 				c.Ok(key, pos, l.Class+": "+l.Detail)
 			default:
+				if splitConsumingLoop(c, l) {
+					c.Ok(key, pos, "input-consuming: each iteration continues with the strict remainder returned by SplitData (C01.R7) and stops when it is empty")
+					continue
+				}
 				why, ok := reviewedLoops[an.ShortFunc(fn)]
 				c.Check(ok, key, pos, "reviewed: "+why, "a loop on the receive path that is neither counted, length-bounded nor a reviewed input-consuming/event loop: its termination for every input is not established")
 			}
